@@ -40,6 +40,9 @@ TEXT = {
     "C11": dict(engine="engine-A-walk", design_ref="6/C11", technique="TLA+ decision table (Codec.tla) enumerated by TLC, one execution of the real codec per case",
                 level_note="Trusted: TLC, Go. A pure function is the situation the technique fits least; what is decided is acceptance, lengths, padding and value identity over the enumerated classes (plus a full sweep of channel numbers), contents are sampled by seed.",
                 level_text="C11_Decode / C11_Padding / C11_AttrSizes are checked by TLC over the table; every case is run on the real ChannelData codec (fresh and reused/dirty values) and the eleven attribute codecs, compared byte for byte."),
+    "C16": dict(engine="engine-A-walk", design_ref="6/C16", technique="TLA+ spec of the RFC 6062 relay (TurnTCP.tla) + TLC + lock-step replay on a real server with a stream listener",
+                level_note="Trusted: TLC, Go, synctest, the harness's in-memory streams. Bounded: 2 clients, 2 users, 2 peer IPs x 2 ports, 3 connection ids, depth 6-7.",
+                level_text="TypeOK, C16_UniqueIds, C16_BindOnce, C16_InboundPermitted, C16_Dup446, C16_HeldDelivered are model-checked; every edge (Connect, inbound peer connection, ConnectionBind by right/wrong user and id, data both ways, closes from either side, control-connection close, time to 29/30 s) is replayed and responses, indications, piped bytes, closes, the connection table and the locks are compared."),
     "C17": dict(engine="engine-A-walk", design_ref="6/C17", technique="TLA+ decision table (LtCred.tla) + TLC + replay of every case on the real generators/handlers and through a real server",
                 level_note="Trusted: TLC, Go, synctest's clock; MAC/Key uninterpreted. Bounded: 2 handler kinds x 3 user ids x 5 durations x mint at 0/1 s after handler construction x probes at every second of a 5 s window x 13 mutation classes.",
                 level_text="LtCred.tla states C17_Iff (authenticates iff untouched pair and now <= expiry); TLC checks it over the whole table and every generated case is executed on the real code twice (handler call; signed Allocate through a real server)."),
